@@ -33,6 +33,7 @@ RULE = ('Each case = a recording (length 1..80, 1-5 channels, int16/float32/floa
 RULE += ' Added classes: NaN / +-inf samples in float flat and array recordings (incl. the last channel, which -1 entries select before blanking); several readers derived from one recording (raw, raw[:, cols], raw * k) reading the same windows alternately; part files whose given order is not their lexicographic order.'
 RULE += ' Round 6: 96-384 channel recordings with small unsorted channel requests to the store; the directly extracted array held across all later calls.'
 RULE += ' Round 7: headers of 7 / 16 bytes on (multi-file) flat recordings.'
+RULE += ' Round 8: model datasets with a single template; a second export of the same selection under another unit factor.'
 EXHAUSTIVE = {'quick': False, 'thorough': False}
 FLOORS = {'quick': {'evaluations': 6000, 'distinct_nontrivial': 4000, 'monitors': {'M1.checked': 100000}},
           'thorough': {'evaluations': 80000, 'distinct_nontrivial': 40000, 'monitors': {'M1.checked': 500000}}}
